@@ -46,6 +46,8 @@ func checkC17(c *Ctx) {
 	c17Options(c, validate)
 	c17ErrorText(c, exec)
 	c17NoTransportReplay(c)
+	c17TypedErrorsWrapped(c, classify)
+	c17NoNestedRetry(c, exec)
 }
 
 // fieldLoadNamed: v is a load of field `name` (of any struct).
@@ -1358,4 +1360,195 @@ func errPredicateFacts(H *ssa.Function, p *ssa.Parameter, classify *ssa.Function
 		}
 	}
 	return out
+}
+
+// c17TypedErrorsWrapped (R-body-taint): a failure whose HTTP status is known travels as a typed error that the
+// classifier recognises with errors.As — so that it is judged by its code alone, whatever the body says. An error of
+// a function that may produce that type must therefore be wrapped with %w wherever it is turned into a new error on a
+// retried path: formatted with %v the type is gone, and the classifier falls back to substring-matching the text
+// (which contains the response body).
+func c17TypedErrorsWrapped(c *Ctx, classify *ssa.Function) {
+	typed := map[*types.Named]bool{}
+	ir.EachCall(classify, func(call ssa.CallInstruction) {
+		if ir.CallName(call) != "errors.As" || len(call.Common().Args) != 2 {
+			return
+		}
+		t := ir.Unwrap(call.Common().Args[1]).Type()
+		for i := 0; i < 2; i++ {
+			if pt, ok := t.(*types.Pointer); ok {
+				t = pt.Elem()
+			}
+		}
+		if nt, ok := t.(*types.Named); ok && ir.InLibrary(nt) {
+			typed[nt] = true
+		}
+	})
+	if len(typed) == 0 {
+		c.R.Hold("R-body-taint", "the classifier recognises no typed error", "", "")
+		return
+	}
+	// functions that may return such an error: they create one, or return the error of a function that may
+	producers := map[*ssa.Function]bool{}
+	errResultOf := func(v ssa.Value) *ssa.Function {
+		v = ir.Unwrap(v)
+		if ex, ok := v.(*ssa.Extract); ok {
+			v = ex.Tuple
+		}
+		if call, ok := v.(*ssa.Call); ok {
+			return ir.StaticCallee(call)
+		}
+		return nil
+	}
+	var mayCarry func(v ssa.Value, d int) bool
+	mayCarry = func(v ssa.Value, d int) bool {
+		if d > 6 || v == nil {
+			return false
+		}
+		switch x := v.(type) {
+		case *ssa.MakeInterface:
+			if pt, ok := x.X.Type().(*types.Pointer); ok {
+				if nt, ok := pt.Elem().(*types.Named); ok && typed[nt] {
+					return true
+				}
+			}
+			return mayCarry(x.X, d+1)
+		case *ssa.Phi:
+			for _, e := range x.Edges {
+				if mayCarry(e, d+1) {
+					return true
+				}
+			}
+		case *ssa.Extract, *ssa.Call:
+			if sc := errResultOf(x); sc != nil && producers[sc] {
+				return true
+			}
+		case *ssa.UnOp:
+			if u := unspill(x); u != ssa.Value(x) {
+				return mayCarry(u, d+1)
+			}
+		}
+		return false
+	}
+	for changed := true; changed; {
+		changed = false
+		for _, fn := range c.P.LibFns {
+			if producers[fn] {
+				continue
+			}
+			ir.EachInstr(fn, func(b *ssa.BasicBlock, _ int, in ssa.Instruction) {
+				r, ok := in.(*ssa.Return)
+				if !ok || b == fn.Recover || producers[fn] {
+					return
+				}
+				for _, rv := range ir.Results(r) {
+					if ir.TypeStr(rv.Type()) == "error" && mayCarry(rv, 0) {
+						producers[fn] = true
+						changed = true
+					}
+				}
+			})
+		}
+	}
+	n := 0
+	// only what a retried operation can return is classified
+	var ops []*ssa.Function
+	if exec := c.P.Func(retryPkg, "Execute"); exec != nil {
+		for _, e := range ir.Callers(c.G, exec) {
+			if e.Site == nil {
+				continue
+			}
+			for _, a := range e.Site.Common().Args {
+				if f := funcValue(a); f != nil {
+					ops = append(ops, f)
+				}
+			}
+		}
+	}
+	retried := c.ReachSync(ops...)
+	for _, fn := range c.P.LibFns {
+		if !clientSide(c, fn) || !retried[fn] {
+			continue
+		}
+		cnt := 0
+		ir.EachInstr(fn, func(_ *ssa.BasicBlock, _ int, in ssa.Instruction) {
+			call, ok := in.(*ssa.Call)
+			if !ok || ir.CallName(call) != "fmt.Errorf" || len(call.Call.Args) < 2 {
+				return
+			}
+			format, ok := ir.ConstStr(call.Call.Args[0])
+			if !ok {
+				return
+			}
+			var verbs []byte
+			for i := 0; i+1 < len(format); i++ {
+				if format[i] != '%' {
+					continue
+				}
+				j := i + 1
+				for j < len(format) && strings.IndexByte("+-# 0123456789.[]*", format[j]) >= 0 {
+					j++
+				}
+				if j < len(format) {
+					if format[j] != '%' {
+						verbs = append(verbs, format[j])
+					}
+					i = j
+				}
+			}
+			for i, e := range variadicElems(call.Call.Args[1]) {
+				if e == nil {
+					continue
+				}
+				v := e
+				for {
+					if mi, ok := v.(*ssa.MakeInterface); ok {
+						v = mi.X
+						continue
+					}
+					if ci, ok := v.(*ssa.ChangeInterface); ok {
+						v = ci.X
+						continue
+					}
+					break
+				}
+				if ir.TypeStr(v.Type()) != "error" {
+					continue
+				}
+				if !mayCarry(v, 0) {
+					continue
+				}
+				n++
+				cnt++
+				c.R.Check(i < len(verbs) && verbs[i] == 'w', "R-body-taint", sprintf("status-bearing error re-wrapped in %s #%d", fname(fn), cnt), c.Pos(call.Pos()),
+					"wrapped with %w: the classifier still sees the typed status error",
+					sprintf("%s formats an error that may be a typed status error (from %s) with %%%c instead of %%w: the type is lost, and the retry classifier substring-matches a text that contains the response body — a 403 whose body mentions \"503 \" or \"connection refused\" is retried", fname(fn), fnameOrNil(errResultOf(v)), verbAt(verbs, i)))
+			}
+		})
+	}
+	if n == 0 {
+		c.R.Hold("R-body-taint", "no error that may carry a typed status error is re-formatted", "", sprintf("%d producer function(s)", len(producers)))
+	}
+}
+
+// c17NoNestedRetry (R-attempt-bound): an operation handed to the retry executor does not itself run the retry executor
+// (a policy applied by the client AND by the transport makes (MaxRetries+1)^2 attempts and restarts the backoff sequence).
+func c17NoNestedRetry(c *Ctx, exec *ssa.Function) {
+	n := 0
+	for _, e := range ir.Callers(c.G, exec) {
+		if e.Site == nil || !c.P.IsLib(e.Caller.Func) {
+			continue
+		}
+		for _, a := range e.Site.Common().Args {
+			op := funcValue(a)
+			if op == nil {
+				continue
+			}
+			n++
+			nested := c.ReachSync(op)[exec]
+			c.R.Check(!nested, "R-attempt-bound", "operation retried by "+fname(e.Caller.Func)+" does not retry itself", c.Pos(e.Site.Pos()),
+				"the operation makes a single attempt",
+				sprintf("the operation %s hands to the retry executor reaches the retry executor again (the transport retries inside the client's retry): up to (MaxRetries+1)^2 attempts, and the wait sequence restarts after every outer wait", fname(e.Caller.Func)))
+		}
+	}
+	_ = n
 }
